@@ -129,7 +129,19 @@ class Tag(HostModel):
 
     def find_all(self, name=None, attrs=None, recursive=True, string=None, limit=None, **kw):
         if string is not None and name is None:
-            raise ModelError("find_all(string=...) without a tag name is outside the model")
+            if attrs or kw:
+                raise ModelError("find_all(string=..., <attribute filters>) without a tag name is outside the model")
+            # no tag name, no attribute filter: bs4 searches the text nodes (comments and CDATA sections are text nodes too),
+            # in document order
+            def _strings(t):
+                for c in t.contents:
+                    if isinstance(c, Tag):
+                        if recursive:
+                            yield from _strings(c)
+                    else:
+                        yield c
+            out = [x for x in _strings(self) if self._match_value(string, str(x))]
+            return out[:limit] if limit else out
         a = dict(attrs or {})
         if "class_" in kw:
             a["class"] = kw.pop("class_")
